@@ -26,6 +26,13 @@ import FGVerif.Proofs.C13Relabel
       `0..n-1` (and sub-pattern ids `0..m-1`) in ANY node order — every clause of `Spec` holds verbatim; only
       `replace_contiguous` (ids in node order) needs an ordered parent, on the full domain the ids of the
       result are `0..n+m-2` in the inherited order (`replace_contiguousAny`, `replace_ids_perm`)
+  * `C13.replace_exact_ids`, … (Proofs/C13Ids.lean, C13IdsA.lean)  ARBITRARY parent ids (`inDomainIds`: distinct integers in any
+      order — offset, sparse, shuffled, negative): the result satisfies `SpecIds` (node list with attributes, bond labels
+      for all pairs stated with the old names, nothing else created or lost), is well-formed and has ids `0..n+m-2`
+  * `C13.offset_eq_of_inDomainAny`, `C13.replaceNode_eq_len` (Proofs/C13Offset.lean)  the model `replaceNode` numbers the
+      inserted sub-pattern from `max id + 1` (the repaired `idx_offset`); on ids `0..n-1` that is `len(graph.nodes)`, the
+      offset the lemma files `C13Nodes`/`C13Edges*` were developed for (`replaceNodeLen`); every theorem listed here is
+      stated for `replaceNode`.  `C13.len_offset_collides`: outside that domain the two functions differ
   * `C13.relabel_exact`, `C13.relabel_spec`, `C13.relabelSpecCheck_sound`, `C13.rank_lt` (Proofs/C13Relabel.lean)
       `relabel_graph` renumbers order-preservingly onto `offset, offset+1, …` and keeps attributes and bonds
 -/
